@@ -79,39 +79,40 @@ Section Step.
         (gamma_UB s' == gamma_UB s * kind_mult (kind_of k) g)%Q /\
         (k = KGate -> g_gamma g <> None) /\
         actions s' = actions s ++ new_actions k s g /\
-        fold_left astep (new_actions k s g) (Some (wiremap s, num_wires s)) = Some (wiremap s', num_wires s').
+        fold_left astep (new_actions k s g) (Some (wiremap s, num_wires s)) = Some (wiremap s', num_wires s') /\
+        (k = KApply -> no_merge s' = no_merge s).
   Proof.
     intros I G. unfold next_state. destruct k; cbn [next_state_primitive kind_of kind_step fst snd new_actions kind_mult].
     - destruct (apply_gate_ok names W HW Hnames s cur E g I G) as (l & Hl & Hall & _).
       rewrite Hl. cbn [obind]. eexists; split; [reflexivity|].
       intros s' Hin. apply in_map_iff in Hin as (s0 & <- & Hin).
-      destruct (Hall s0 Hin) as (IU & _ & Enw & Elen & Eg & Ea & El & Ewm).
+      destruct (Hall s0 Hin) as (IU & Enm & Enw & Elen & Eg & Ea & El & Ewm).
       split; [now apply InvU_set_level|]. cbn. rewrite Enw, Elen, Eg, Ea, app_nil_r, Ewm.
-      repeat match goal with |- _ /\ _ => split end; auto; try lia; try (intros; discriminate). ring.
+      repeat match goal with |- _ /\ _ => split end; auto; try lia; try (intros; discriminate); try reflexivity; try ring.
     - destruct (gate_cut_ok names W HW Hnames s cur E g I G) as (l & Hl & Hall & _).
       rewrite Hl. cbn [obind]. eexists; split; [reflexivity|].
       intros s' Hin. apply in_map_iff in Hin as (s0 & <- & Hin).
       destruct (Hall s0 Hin) as (gam & Eg & _ & IU & Enw & Elen & Egam & Ea & El & Ewm).
       split; [now apply InvU_set_level|]. cbn. rewrite Enw, Elen, Egam, Ea, Ewm. unfold gamma_or_1. rewrite Eg.
-      repeat match goal with |- _ /\ _ => split end; auto; try lia; try reflexivity. intros _; discriminate.
+      repeat match goal with |- _ /\ _ => split end; auto; try lia; try (intros; discriminate); try reflexivity; try ring.
     - destruct (left_cut_ok names W HW Hnames s cur E g I G) as (l & Hl & Hall & _).
       rewrite Hl. cbn [obind]. eexists; split; [reflexivity|].
       intros s' Hin. apply in_map_iff in Hin as (s0 & <- & Hin).
       destruct (Hall s0 Hin) as (IU & Enw & Elen & Egam & Ea & El & Ewm).
       split; [now apply InvU_set_level|]. cbn. rewrite Enw, Elen, Egam, Ea, Ewm. unfold get_wire. rewrite !Nat.eqb_refl. cbn.
-      repeat match goal with |- _ /\ _ => split end; auto; try lia; try (intros; discriminate); try reflexivity.
+      repeat match goal with |- _ /\ _ => split end; auto; try lia; try (intros; discriminate); try reflexivity; try ring.
     - destruct (right_cut_ok names W HW Hnames s cur E g I G) as (l & Hl & Hall & _).
       rewrite Hl. cbn [obind]. eexists; split; [reflexivity|].
       intros s' Hin. apply in_map_iff in Hin as (s0 & <- & Hin).
       destruct (Hall s0 Hin) as (IU & Enw & Elen & Egam & Ea & El & Ewm).
       split; [now apply InvU_set_level|]. cbn. rewrite Enw, Elen, Egam, Ea, Ewm. unfold get_wire. rewrite !Nat.eqb_refl. cbn.
-      repeat match goal with |- _ /\ _ => split end; auto; try lia; try (intros; discriminate); try reflexivity.
+      repeat match goal with |- _ /\ _ => split end; auto; try lia; try (intros; discriminate); try reflexivity; try ring.
     - destruct (both_cut_ok names W HW Hnames s cur E g I G) as (l & Hl & Hall & _).
       rewrite Hl. cbn [obind]. eexists; split; [reflexivity|].
       intros s' Hin. apply in_map_iff in Hin as (s0 & <- & Hin).
       destruct (Hall s0 Hin) as (IU & Enw & Elen & Egam & Ea & El & Ewm).
       split; [now apply InvU_set_level|]. cbn. rewrite Enw, Elen, Egam, Ea, Ewm. unfold get_wire. rewrite !Nat.eqb_refl. cbn.
-      repeat match goal with |- _ /\ _ => split end; auto; try lia; try (intros; discriminate); try reflexivity.
+      repeat match goal with |- _ /\ _ => split end; auto; try lia; try (intros; discriminate); try reflexivity; try ring.
   Qed.
 End Step.
 
@@ -192,7 +193,8 @@ Section Global.
     inv_nw : num_wires s <= length names + 2 * level s ;
     inv_len_u : length (uptree s) = M ;
     inv_kinds : Forall (fun kd => exists k, In k acts /\ kind_of k = kd) pl ;
-    inv_trace : replay (actions s) (seq 0 (length names)) (length names) = Some (wiremap s, num_wires s)
+    inv_trace : replay (actions s) (seq 0 (length names)) (length names) = Some (wiremap s, num_wires s) ;
+    inv_nm : (forall kd, In kd pl -> kd = Leave) -> no_merge s = []
   }.
 
   Lemma Inv_init m : Inv (length names + m) (init_state (length names) m) [].
@@ -216,7 +218,7 @@ Section Global.
     assert (Hg : In g gates) by (apply nth_In; auto).
     destruct (next_state_ok names W HW Hnames s _ _ g k (inv_u _ _ _ I) (Hgates g Hg)) as (l0 & Hl0 & Hall).
     rewrite Hns in Hl0. inversion Hl0; subst l0.
-    destruct (Hall s' Hin) as (IU & El & Elen & Hnw1 & Hnw2 & Egam & Hgc & Ea & Etr).
+    destruct (Hall s' Hin) as (IU & El & Elen & Hnw1 & Hnw2 & Egam & Hgc & Ea & Etr & Hnm).
     assert (Ec : combine gates (pl ++ [kind_of k]) = combine gates pl ++ [(g, kind_of k)]).
     { unfold g. rewrite <- (inv_len _ _ _ I). apply combine_snoc. rewrite (inv_len _ _ _ I). exact Hlvl. }
     assert (Eabs : abs_of (pl ++ [kind_of k]) = kind_step (Q1 names g) (Q2 names g) (kind_of k) (abs_of pl)).
@@ -235,6 +237,9 @@ Section Global.
     - apply Forall_app; split; [apply (inv_kinds _ _ _ I)|]. constructor; [eauto|constructor].
     - unfold replay. rewrite Ea, fold_left_app. fold (replay (actions s) (seq 0 (length names)) (length names)).
       rewrite (inv_trace _ _ _ I). exact Etr.
+    - intros Hall'. assert (Ek : kind_of k = Leave) by (apply Hall'; apply in_or_app; right; now left).
+      destruct k; try discriminate. rewrite (Hnm eq_refl). apply (inv_nm _ _ _ I).
+      intros kd Hkd. apply Hall'. apply in_or_app. now left.
   Qed.
 
   Variable fa : fargs.
